@@ -60,11 +60,11 @@ def gen_case(rng):
         return {"kind": "c11", "ops": ops, "nomodel": True, "home": home}
     if r < 0.5:
         ops = c06.gen_history(rng, maxlen=rng.randint(4, 26), risky=0.25, files=rng.random() < 0.5, clone_p=0.12,
-                              into_p=0.3, coll_p=0.5, max_objs=3, share_p=0.25, srcedit_p=0.08)
+                              into_p=0.3, coll_p=0.5, max_objs=3, share_p=0.25, srcedit_p=0.08, eqreload_p=0.06)
     else:
         classes = [c06.tree(rng, dens=0.45) for _ in range(rng.randint(1, 3))]
         ops = c06.gen_history(rng, maxlen=rng.randint(8, 30), risky=0.2, files=rng.random() < 0.5, clone_p=0.22,
-                              into_p=0.65, coll_p=0.3, max_objs=6, classes=classes, reload_p=0.3, levels=True, share_p=0.2, srcedit_p=0.12,
+                              into_p=0.65, coll_p=0.3, max_objs=6, classes=classes, reload_p=0.3, levels=True, share_p=0.2, srcedit_p=0.12, eqreload_p=0.08,
                               focus=rng.choice([0.0, 0.5, 0.8]))
     if not any(o["op"] == "CLONE" for o in ops):
         k = rng.randint(1, len(ops))
@@ -111,6 +111,13 @@ def list_leaves(c, view, pre=()):
 
 def alias_probe(impl, views):
     """mutate every list value readable from one object in place; nothing else may change"""
+    # The history is over.  Loads made with merge=False that no later operation merged are still pending, and the
+    # probe's own `merge()` below would make them visible: merge every object FIRST and probe against those views
+    # (what a deferred load looks like once merged is judged by the history oracle, not here).
+    views = list(views)
+    for b, other in enumerate(impl.objs):
+        other.merge()
+        views[b] = cfglib.plain(other)
     for a, c in enumerate(impl.objs):
         for p in list(list_leaves(c, views[a])):
             cur = c
@@ -215,6 +222,10 @@ def _run_case(case, tmpdir):
         if impl.violation:
             fail, sig = impl.violation, "other"
             break
+        if op["op"] == "FRESH" and not r.startswith("E:"):
+            if cfglib.canon(vs[-1]) != cfglib.canon(op["into"]):
+                fail, sig = ("a fresh instance of clone target class %s reads %s, its global defaults are %s" % (
+                    op.get("cls"), cfglib.canon(vs[-1]), cfglib.canon(op["into"]))), "other"
         if op["op"] == "CLONE" and not r.startswith("E:") and o not in impl.stale:
             if op.get("into") is None:
                 if cfglib.canon(vs[-1]) != cfglib.canon(vs[o]):
@@ -223,7 +234,7 @@ def _run_case(case, tmpdir):
                 fail, sig = into_check(op["into"], vs[o], vs[-1])
         if not fail:
             for j, pv in enumerate(prev):
-                if (j != o or op["op"] == "CLONE") and cfglib.canon(pv) != cfglib.canon(vs[j]):
+                if (j != o or op["op"] in ("CLONE", "FRESH")) and cfglib.canon(pv) != cfglib.canon(vs[j]):
                     fail, sig = "%s on object %d changed object %d: %s -> %s" % (
                         cfglib.op_txt(op), o, j, cfglib.canon(pv), cfglib.canon(vs[j])), "other"
                     break
@@ -283,6 +294,9 @@ def run(ctx):
             ops, row, fail, sig, stats, results = run_case(case, tmp)
             case = {"kind": "c11", "ops": ops, "home": case.get("home")}
             out.hist["cases_with_default_location_user_file"] += case["home"] is not None
+            out.hist["clones_into_constant_table_class"] += sum(1 for o in ops if o["op"] == "CLONE" and o.get("const"))
+            out.hist["fresh_instances_of_target_class"] += sum(1 for o in ops if o["op"] == "FRESH")
+            out.hist["reload_equal_content_other_object"] += sum(1 for o in ops if o.get("eqreload"))
             out.hist["levels_with_shared_subobject"] += sum(len(o.get("share", {})) for o in ops)
             out.hist["shared_subobject_in_yaml_file_level"] += sum(
                 1 for o in ops for f in o.get("share", {}) if f in ("system", "user", "project", "runtime")
